@@ -539,9 +539,12 @@ def _eliminate_parents_upper(
         branchpoint_solves[bpil],
     )
 
-    # Update the diagonal elements and `b` in `Ax=b` (called `solves`).
-    diags = diags.at[idx.last(bil)].add(new_diag)
-    solves = solves.at[idx.last(bil)].add(new_solve)
+    # Update the diagonal elements and `b` in `Ax=b` (called `solves`). The parent
+    # couples to the branchpoint with its last *actual* compartment, which differs from
+    # `idx.last()` if the branch was padded to the compartment number of its level.
+    last_comp = idx.first(bil) + np.asarray(ncomp_per_branch)[bil] - 1
+    diags = diags.at[last_comp].add(new_diag)
+    solves = solves.at[last_comp].add(new_solve)
     branchpoint_conds_parents = branchpoint_conds_parents.at[bil].set(0.0)
 
     return diags, solves, branchpoint_conds_parents
@@ -571,8 +574,10 @@ def _eliminate_parents_lower(
 ):
     bil = pil[:, 0]
     bpil = pil[:, 1]
+    # Last *actual* compartment of the parent (see `_eliminate_parents_upper()`).
+    last_comp = idx.first(bil) + np.asarray(ncomp_per_branch)[bil] - 1
     branchpoint_solves = branchpoint_solves.at[bpil].add(
-        -solves[idx.last(bil)] * branchpoint_weights_parents[bil] / diags[idx.last(bil)]
+        -solves[last_comp] * branchpoint_weights_parents[bil] / diags[last_comp]
     )
     branchpoint_weights_parents = branchpoint_weights_parents.at[bil].set(0.0)
     return branchpoint_weights_parents, branchpoint_solves
